@@ -189,9 +189,15 @@ def _stackfx_cells(ctx, code, hname, fn, m, oblkey):
             except Raised as x:
                 return ctx.bad(spec, "%s (%d → %s) raises %s on the stack %s" % (name, code, hname, x.name, [e.hex() for e in st]), fn, m, key="%s:%s:raises" % (oblkey, name))
             if r is not True or got != want:
+                # the key names the observed effect in the notation of the symbolic path (x6x5…→…) when the result is a rearrangement of distinct
+                # operands, so that one deviation is one finding whichever way it was decided
+                sig = "cells"
+                if r is True and not extra and len(set(base)) == len(base) and all(x_ in base for x_ in got):
+                    slots = [("slot", len(base) - base.index(x_)) for x_ in got]
+                    sig = fmt_fx(len(base), slots).replace(" ", "")
                 return ctx.bad(spec, "%s (%d → %s) on the stack [%s] %s [%s]; consensus leaves [%s]" % (
                     name, code, hname, " ".join(e.hex() or "''" for e in st), "fails and leaves" if r is not True else "leaves", " ".join(e.hex() or "''" for e in got),
-                    " ".join(e.hex() or "''" for e in want)), fn, m, key="%s:%s:%s" % (oblkey, name, "cells"))
+                    " ".join(e.hex() or "''" for e in want)), fn, m, key="%s:%s:%s" % (oblkey, name, sig))
     if depth:
         short = [bytes([0x10 + i]) for i in range(depth - 1)]
         try:
@@ -287,7 +293,43 @@ def c07_1(ctx):
         fn = m.functions.get(table.get(code, ""))
         if fn is None:
             raise AnalysisError("%s handler missing" % name)
-        e = effect_of(ctx.repo, m, fn)
+        try:
+            e = effect_of(ctx.repo, m, fn)
+            if not e["success"] or simplify_success(e["success"]) is None:
+                e = None
+        except AnalysisError:
+            e = None
+        if e is None:
+            # the symbolic executor does not model this spelling (a helper that takes the two stacks as source / destination): evaluate the handler
+            from sa.cells import Evaluator, Raised, Undecided
+            verdict = None
+            try:
+                for main in ([], [b"a"], [b"a", b"b"], [b"", b"\x01", b"x" * 80]):
+                    for alt in ([], [b"p"], [b"p", b"q"]):
+                        st, al = list(main), list(alt)
+                        ctx.count("cells")
+                        try:
+                            r_ = Evaluator(ctx.repo).call("op:" + fn.name, [st, al])
+                        except Raised as x_:
+                            verdict = "raises %s on stack %s / alt stack %s" % (x_.name, main, alt)
+                            break
+                        src, dst = (main, alt) if code == 107 else (alt, main)
+                        if not src:
+                            good = r_ is False and st == main and al == alt
+                        else:
+                            want_src, want_dst = src[:-1], dst + [src[-1]]
+                            good = r_ is True and ((st, al) == (want_src, want_dst) if code == 107 else (al, st) == (want_src, want_dst))
+                        if not good:
+                            verdict = "on stack %s / alt stack %s returns %r leaving %s / %s" % (main, alt, r_, st, al)
+                            break
+                    if verdict:
+                        break
+            except Undecided as u_:
+                out.append(ctx.err("op:" + fn.name, "%s: handler neither modelled nor evaluable (%s)" % (name, u_), fn, m))
+                continue
+            out.append(ctx.bad("op:" + fn.name, "%s: %s; consensus moves exactly one item and fails on an empty source" % (name, verdict), fn, m, key="fx:" + name) if verdict else
+                       ctx.ok("op:" + fn.name, "%s moves one item between the stacks (evaluated on 12 stack pairs)" % name, fn, m, key="fx:" + name))
+            continue
         s = simplify_success(e["success"])
         ok = s is not None and not s[0] and (s[1], s[2], s[3], s[4]) == exp
         dep_ok = (_depth(e, "stack") == 1) if code == 107 else (_depth(e, "altstack") == 1)
